@@ -73,6 +73,19 @@ impl Encoder {
     }
 }
 
+impl Encoder {
+    /// Encode a domain name without compression (RFC 3597 section 4).
+    pub(super) fn domain_name_uncompressed(
+        &mut self,
+        domain_name: &DomainName,
+    ) -> EncodeResult<()> {
+        for label in domain_name.0.iter() {
+            self.label(label)?;
+        }
+        self.string("")
+    }
+}
+
 impl DomainName {
     fn iter(&self) -> DomainNameIter {
         DomainNameIter { labels: &self.0 }
